@@ -606,6 +606,37 @@ static void GenNewYear(Rng& rng, bool thorough)
 	}
 }
 
+/* Windows that end within the first hour of a local day shortly after a UTC-offset change (and one second before
+ * that day begins): the place where "number of days = seconds / 86400" and "every local day whose midnight is not
+ * after end" disagree.  Enumerated for every offset change of the zone in 2024..2029. */
+static void GenDstEdges(Rng& rng, const std::vector<long long>& changeDays)
+{
+	static const int ends[] = { 0, 1, 1799, 3599, 3600 };
+	int n = 0;
+	for (long long A : changeDays)
+	for (int k = 0; k <= 3; k++)
+	for (int tod : ends) {
+		long long b = MkLocal(A - 1 - (long long)rng.below(2), (int)rng.below(86400));
+		long long e = MkLocal(A + k, tod);
+		if (tod == 0 && (n & 1)) e -= 1; /* one second before midnight */
+		std::string enc = DateStr(A - 4) + "_-_" + DateStr(A + 6) + "=" + (n % 2 ? "00:00-00:30,12:00-13:00" : "00:00-24:00");
+		OpCase("dst_edge");
+		if (n % 3 == 0) {
+			OpScript(b, e, enc);
+		} else {
+			OpPeriod(0, 1, "-", "-", enc);
+			OpUpdate(0, b, e, 1, "-");
+			std::string ts;
+			for (long long t : { b, e - 3600, e - 1800, e - 1, e, MkLocal(A + k, 0) - 1, MkLocal(A + k, 0), MkLocal(A + k, 900) }) {
+				if (!ts.empty()) ts += ",";
+				ts += std::to_string(t);
+			}
+			OpQuery(0, ts);
+		}
+		n++;
+	}
+}
+
 static void GenCalendar(uint64_t seed, bool thorough, const std::string& tz)
 {
 	Rng rng(seed * 1000003ULL + std::hash<std::string>()(tz) % 1000);
@@ -620,6 +651,7 @@ static void GenCalendar(uint64_t seed, bool thorough, const std::string& tz)
 			if (o != cur) { anchors.push_back((t + o) / 86400); cur = o; }
 		}
 	}
+	GenDstEdges(rng, anchors); /* at this point the list holds exactly the offset-change days */
 	anchors.push_back(CivilToDays(2024, 2, 29));
 	anchors.push_back(CivilToDays(2028, 2, 29));
 	for (int y = 2023; y <= 2029; y++) { /* every New Year, after leap years (2024, 2028) and after common years */
